@@ -40,6 +40,12 @@ type Case struct {
 	// how both indexes are built: 0 one Set(all...) call; 1 one Set per element;
 	// 2 through a history: every universe id is first inserted with another head, then the
 	// final heads are set in one call, then the ids that must be absent are removed.
+	// 3 "fold": the LOCAL index is first filled (one Set call) with its own content plus every
+	// other universe id - the ids the remote holds with the remote's heads, the rest with head
+	// 1 - and then the ids it must not hold are removed one by one, nothing is inserted
+	// afterwards; the REMOTE index is fresh (one Set call). So the local index has been
+	// subdivided around ids it no longer holds, removals fold those subdivisions back, and the
+	// peer still holds (part of) the pre-removal content with identical hashes.
 	Build int `json:"build"`
 }
 
@@ -100,12 +106,62 @@ func build(c Case, ids []string, s setmodel.Set) ldiff.Diff {
 	}
 }
 
+// buildFolded is the local side of build mode 3. folded = the largest number of
+// subdivision levels a single removal had to fold back (model view: depth of the
+// subdivision around the removed position before and after), pre = the content before the
+// removals.
+func buildFolded(c Case, ids []string, s, other setmodel.Set) (d ldiff.Diff, folded int, pre setmodel.Set) {
+	pre = s.Clone()
+	for _, id := range ids {
+		if _, ok := pre[id]; ok {
+			continue
+		}
+		if h, ok := other[id]; ok {
+			pre[id] = h
+		} else {
+			pre[id] = head(1)
+		}
+	}
+	d = setmodel.Fresh(c.DF, c.TH, pre)
+	cur := pre.Hashes()
+	for _, id := range ids {
+		if _, ok := s[id]; ok {
+			continue
+		}
+		h := setmodel.HashOf(id)
+		before, _ := setmodel.SplitDepth(cur, c.DF, c.TH, h)
+		if err := d.RemoveId(id); err != nil {
+			panic("harness: RemoveId of an inserted id: " + err.Error())
+		}
+		i := sort.Search(len(cur), func(i int) bool { return cur[i] >= h })
+		cur = append(cur[:i], cur[i+1:]...)
+		after, _ := setmodel.SplitDepth(cur, c.DF, c.TH, h)
+		folded = max(folded, before-after)
+	}
+	return d, folded, pre
+}
+
+func sameSet(a, b setmodel.Set) bool {
+	if len(a) != len(b) {
+		return false
+	}
+	for k, v := range a {
+		if w, ok := b[k]; !ok || w != v {
+			return false
+		}
+	}
+	return true
+}
+
 // Tiny indexes (the enumeration) are built once per (parameters, universe, contents, build
 // mode) and shared between cases: a diff only reads both indexes, and the key is the full
 // description of how the index was made, so run stays a function of the case.
 var buildCache = map[string]ldiff.Diff{}
 
 func cachedBuild(c Case, ids []string, side []int, s setmodel.Set) ldiff.Diff {
+	if c.Build == 3 {
+		c.Build = 0 // the fresh side of a fold case
+	}
 	if len(c.Ids) > 4 {
 		return build(c, ids, s)
 	}
@@ -255,7 +311,15 @@ func run(c Case) (vstat.Outcome, error) {
 		out.Excluded, out.Sig = sig, vstat.HashJSON(c)
 		return out, nil
 	}
-	local := cachedBuild(c, ids, c.A, ma)
+	var local ldiff.Diff
+	folded, vsPre := 0, false
+	if c.Build == 3 {
+		var pre setmodel.Set
+		local, folded, pre = buildFolded(c, ids, ma, mb)
+		vsPre = sameSet(pre, mb)
+	} else {
+		local = cachedBuild(c, ids, c.A, ma)
+	}
 	remote := cachedBuild(c, ids, c.B, mb)
 	ctx := context.Background()
 
@@ -372,6 +436,17 @@ func run(c Case) (vstat.Outcome, error) {
 		out.Classes = append(out.Classes, "equal-sets")
 	}
 	out.Classes = append(out.Classes, fmt.Sprintf("build-%d", c.Build))
+	if folded >= 2 {
+		out.Classes = append(out.Classes, "history-multi-level-fold")
+		switch {
+		case vsPre:
+			out.Classes = append(out.Classes, "fold-vs-pre-removal-content")
+		case !differ:
+			out.Classes = append(out.Classes, "fold-vs-same-content")
+		default:
+			out.Classes = append(out.Classes, "fold-vs-modified-content")
+		}
+	}
 	if d := depthOfUnion(ma, mb, c.DF, c.TH); d >= 3 {
 		out.Classes = append(out.Classes, "split-depth>=3")
 		if d >= 8 {
@@ -431,8 +506,10 @@ func shardOf() (shard, shards int) {
 }
 
 // enumerate: every pair of indexes over a universe of 4 ids (absent / head a / head b on
-// each side: 81 x 81 pairs) x divide factor x threshold x universe x build mode {0,2}
-// (history builds on the skewed and the deep universe with thresholds 1..3).
+// each side: 81 x 81 pairs) x divide factor x threshold x universe x build mode {0,2,3}
+// (history builds 2 and 3 on the skewed and the deep universe with splitting thresholds;
+// for build 3 every pair is "local = all four ids inserted, then folded down to A" against a
+// fresh B: B = pre-removal content, B = A and every modification are all among the pairs).
 // Within one parameter combination small sets come first. Split over the shards of the run.
 func enumerate(yield func(Case) bool) {
 	shard, shards := shardOf()
@@ -455,9 +532,14 @@ func enumerate(yield func(Case) bool) {
 	for ui, u := range universes() {
 		for _, df := range dfs {
 			for _, th := range ths {
-				for _, bm := range []int{0, 2} {
-					if bm == 2 && (ui == 1 || th == 8) {
-						continue // history builds: on the clustered universes and splitting thresholds
+				for _, bm := range []int{0, 2, 3} {
+					switch {
+					case th == 8 && (bm != 0 || ui != 1):
+						continue // 4 ids never exceed threshold 8: one universe, plain build
+					case bm == 2 && (ui == 1 || ui == 2 && df != 2 && df != 16):
+						continue // update histories: skewed universe, deep universe for two divide factors
+					case bm == 3 && (ui == 1 || ui == 2 && th == 3):
+						continue // fold histories: the clustered universes
 					}
 					for _, a := range states {
 						for _, b := range states {
@@ -489,7 +571,10 @@ func genCase(rt *rapid.T) Case {
 		c.DF = rapid.IntRange(2, 70).Draw(rt, "dfAny")
 		c.TH = rapid.IntRange(1, 70).Draw(rt, "thAny")
 	}
-	c.Build = rapid.SampledFrom([]int{0, 0, 1, 2, 2}).Draw(rt, "build")
+	c.Build = rapid.SampledFrom([]int{0, 0, 1, 2, 2, 3, 3}).Draw(rt, "build")
+	if rapid.IntRange(0, 3).Draw(rt, "foldScenario") == 0 {
+		return genFold(rt, c)
+	}
 	maxN := vstat.Pick(400, 3000)
 	sizeKind := rapid.IntRange(0, 19).Draw(rt, "sizeKind")
 	switch {
@@ -561,12 +646,71 @@ func genCase(rt *rapid.T) Case {
 	return c
 }
 
+// genFold: the scenario of build mode 3 made likely. A few clusters of threshold+1
+// (sometimes +2) ids that share a long hash prefix (neighbouring pool ranks, or solved ids
+// 2^16..2^20 apart) so that each cluster is subdivided many levels deep; the remote holds
+// all of them; the local index held them too and then removed one or two per cluster (fold
+// of >= 2 levels, nothing re-inserted); optionally the remote changed a head or lost an id
+// meanwhile; some unrelated ids equal on both sides.
+func genFold(rt *rapid.T, c Case) Case {
+	c.Build = 3
+	if c.TH > 12 {
+		c.TH = 1 + c.TH%12
+	}
+	nClusters := rapid.IntRange(1, 4).Draw(rt, "clusters")
+	for k := 0; k < nClusters; k++ {
+		n := c.TH + 1 + rapid.SampledFrom([]int{0, 0, 0, 1}).Draw(rt, "extra")
+		drop := rapid.IntRange(1, 2).Draw(rt, "drop")
+		first := len(c.Ids)
+		if rapid.Bool().Draw(rt, "solved") {
+			base := rapid.Uint64Range(1<<32, ^uint64(0)-1<<32).Draw(rt, "base")
+			shift := rapid.IntRange(16, 20).Draw(rt, "shift")
+			for i := 0; i < n; i++ {
+				c.Ids = append(c.Ids, setmodel.Exact(base+uint64(i)<<shift, 0))
+			}
+		} else {
+			r0 := rapid.IntRange(0, setmodel.PoolSize-1).Draw(rt, "r0")
+			for i := 0; i < n; i++ {
+				c.Ids = append(c.Ids, setmodel.Rank(r0+i))
+			}
+		}
+		for i := first; i < len(c.Ids); i++ {
+			c.A = append(c.A, 1+i%3)
+			c.B = append(c.B, 1+i%3)
+		}
+		for j := 0; j < drop; j++ { // the local side removed these
+			c.A[first+rapid.IntRange(0, n-1).Draw(rt, "dropped")] = 0
+		}
+		switch rapid.IntRange(0, 5).Draw(rt, "remoteChange") {
+		case 0: // the remote changed a head meanwhile
+			c.B[first+rapid.IntRange(0, n-1).Draw(rt, "changed")] = 4
+		case 1: // the remote lost an id meanwhile
+			c.B[first+rapid.IntRange(0, n-1).Draw(rt, "lost")] = 0
+		}
+	}
+	noise := rapid.IntRange(0, 20).Draw(rt, "noise")
+	for i := 0; i < noise; i++ {
+		c.Ids = append(c.Ids, setmodel.Rank(rapid.IntRange(0, setmodel.PoolSize-1).Draw(rt, "rank")))
+		hd := rapid.IntRange(0, 3).Draw(rt, "noiseHead")
+		c.A = append(c.A, hd)
+		c.B = append(c.B, hd)
+	}
+	// keep the universe inside the domain, A and B aligned with it
+	var ids []setmodel.IDSpec
+	var a, b []int
+	for _, i := range setmodel.SpacedOutIdx(c.Ids) {
+		ids, a, b = append(ids, c.Ids[i]), append(a, c.A[i]), append(b, c.B[i])
+	}
+	c.Ids, c.A, c.B = ids, a, b
+	return c
+}
+
 // ---- tests ----------------------------------------------------------------------------------
 
 func TestExhaustive(t *testing.T) { vstat.Enumerate(t, prop, enumerate, run) }
 func TestRandom(t *testing.T)     { vstat.Check(t, prop, genCase, run) }
 func TestReplay(t *testing.T) {
-	for _, name := range []string{"TestExhaustive", "TestRandom", "TestRegEmptyHashTakenAsEqual", "TestRegPositionInAlignmentRemainder", "TestRegHistoryBuiltIndexes"} {
+	for _, name := range []string{"TestExhaustive", "TestRandom", "TestRegEmptyHashTakenAsEqual", "TestRegPositionInAlignmentRemainder", "TestRegHistoryBuiltIndexes", "TestRegFoldedHistoryStaleRanges"} {
 		t.Run(name, func(t *testing.T) { vstat.Replay(t, prop, name, run) })
 	}
 }
@@ -595,4 +739,16 @@ func TestRegPositionInAlignmentRemainder(t *testing.T) {
 // make the diff miss ids: local {o60oj}, remote {o12vs,o533x}, df=2 th=2.
 func TestRegHistoryBuiltIndexes(t *testing.T) {
 	vstat.One(t, prop, Case{DF: 2, TH: 2, Ids: skewed4, A: []int{1, 0, 0, 0}, B: []int{0, 1, 1, 0}, Build: 2}, run)
+}
+
+// Seeded change C07-b (sub-range tuples computed once and reused for every merge level in
+// removeElement): the local index held {o60oj,o12vs} (neighbours, subdivided ~19 levels,
+// df=2 th=1), removed o12vs (fold of every level); only the lowest level's entries left the
+// ranges map, the stale intermediate ones answer with the pre-removal hash, which equals
+// the hash of a peer that still holds both ids: o12vs is not reported as new. Passes on a
+// correct tree.
+func TestRegFoldedHistoryStaleRanges(t *testing.T) {
+	vstat.One(t, prop, Case{DF: 2, TH: 1, Ids: skewed4, A: []int{1, 0, 0, 0}, B: []int{1, 1, 0, 0}, Build: 3}, run)
+	vstat.One(t, prop, Case{DF: 16, TH: 2, Ids: skewed4, A: []int{1, 2, 0, 0}, B: []int{1, 2, 1, 0}, Build: 3}, run)
+	vstat.One(t, prop, Case{DF: 4, TH: 3, Ids: skewed4, A: []int{1, 2, 0, 1}, B: []int{1, 2, 2, 1}, Build: 3}, run)
 }
